@@ -339,10 +339,19 @@ def append (s o : Store P) : R (Store P × Store P) := do
   pure (s, o)
 
 def fromVec (v : Array (Item × P)) : R (Store P) := heapBuild (Store.fromVec v)
-def fromIter (xs : Array (Item × P)) : R (Store P) := heapBuild (Store.fromIter xs)
+/-- `FromIterator::from_iter` with the lower bound `lo` of the iterator's `size_hint` (see `MaxQ.fromIter`) -/
+def fromIter (lo : Nat) (xs : Array (Item × P)) : R (Store P) := do
+  reserveC lo
+  heapBuild (Store.fromIter xs)
 /-- `From<PriorityQueue>` -/
 def ofStore (s : Store P) : R (Store P) := heapBuild s
-def deserialize (xs : Array (Item × P)) : R (Store P) := heapBuild (Store.visitSeq xs)
+/-- `Deserialize` with the announced (untrusted) length `hint` (see `MaxQ.deserialize`): the pre-allocation is capped at
+4096 elements -/
+def deserialize (hint : Option Nat) (xs : Array (Item × P)) : R (Store P) := do
+  match hint with
+  | some h => reserveC (min h 4096)
+  | none => pure ()
+  heapBuild (Store.visitSeq xs)
 
 def pushAll : List (Item × P) → Store P → R (Store P)
   | [], s => pure s
@@ -350,7 +359,9 @@ def pushAll : List (Item × P) → Store P → R (Store P)
     let (s, _) ← push s e.1 e.2
     pushAll es s
 
-def extend (s : Store P) (lo : Nat) (xs : Array (Item × P)) : R (Store P) :=
+/-- `Extend::extend` with the lower bound `lo` of the iterator's `size_hint` (see `MaxQ.extend`): `self.reserve(lo)` first -/
+def extend (s : Store P) (lo : Nat) (xs : Array (Item × P)) : R (Store P) := do
+  reserveC lo
   let rebuild := if lo ≠ 0 then betterToRebuild s.size lo else false
   if rebuild then heapBuild (s.extend xs) else pushAll xs.toList s
 
